@@ -13,8 +13,10 @@ use crate::tree::{self, Tree};
 use crate::util::{announce, par_for, Budget, Scratch};
 
 const NAMES: [&str; 5] = ["a", "ab", "b", "é", "a.txt"];
-const PATTERNS: [&str; 13] = [
+const PATTERNS: [&str; 15] = [
     "/a", "a", "/a/b", "*", "/*", "a*", "?", "**/b", "/a/**", "[ab]", "*.txt", "é", "/a/*/b",
+    // a double star glued to other characters is two plain stars: it does not cross '/'
+    "a**", "/a**",
 ];
 
 /// Does one pattern match this apath itself (stated anchoring; same glob primitive as the tool)?
@@ -242,11 +244,13 @@ pub fn run(report: &Report, budget: &Budget) {
         scratches[w].clear();
     });
     report.set("wide_tree_cases", json!(wdone));
+    // (quick: the generated shapes meet single patterns only; pairs of patterns meet the wide trees)
+    let shape_sets: Vec<Vec<String>> = if thorough { sets.clone() } else { sets.iter().filter(|s| s.len() <= 1).cloned().collect() };
     let done = par_for(shapes.len(), budget, |w, i| {
         let t = gen::tree_of(&shapes[i]);
         let hunk = [2usize, 1, 3, 1000][i % 4];
         let _g = announce(w, || format!("C15 {}", tree::tree_brief(&t)));
-        for (v, set) in judge(&t, hunk, &sets, &scratches[w], &n) {
+        for (v, set) in judge(&t, hunk, &shape_sets, &scratches[w], &n) {
             report.violation(&v, &json!({"kind": "c15", "tree": tree::tree_to_json(&t), "exclude": set, "hunk": hunk}));
         }
         if i % 199 == 3 {
@@ -260,7 +264,7 @@ pub fn run(report: &Report, budget: &Budget) {
     report.set("transitions", json!(n.load(AO::Relaxed)));
     report.set("traces_validated_against_impl", json!(n.load(AO::Relaxed) * 3));
     report.set("exhaustive", json!(done == shapes.len()));
-    report.set("explanation", json!("every tree shape over the names menu x every set of at most two patterns from the pattern menu: backup-with-exclusions, list-with-exclusions and restore-with-exclusions are compared with each other and with the ancestor rule"));
+    report.set("explanation", json!("every tree shape over the names menu x every set of at most two patterns (quick: one pattern; pairs on the wide trees) from the pattern menu: backup-with-exclusions, list-with-exclusions and restore-with-exclusions are compared with each other and with the ancestor rule"));
     report.assume("the oracle uses the same glob primitive (globset, literal_separator) so that only anchoring, ancestor closure and pruning-vs-filtering are judged, not glob dialect");
     report.assume("the root entry is left out of the comparison; no cache-tagged directories are generated");
 }
